@@ -146,7 +146,7 @@ def run(out: Outcome, drv, prop):
     n = nq if out.tier == "quick" else nt
     out.rule = (f"seeded boundary-focused generator per function ({', '.join(fns)}; values on a dyadic lattice placed on/around "
                 f"every threshold, lengths 0..12 incl. 0,1,2,3, missing values, malformed parameter stream) plus a small "
-                f"bounded-exhaustive core; a case is non-trivial when its observed flag vector has >= 2 distinct values or the call "
+                f"bounded-exhaustive core (C10: also timestamps with a fractional second, elapsed time cut to whole seconds); a case is non-trivial when its observed flag vector has >= 2 distinct values or the call "
                 f"raised; distinct by SHA-1 of the canonical logical case")
     if prop == "C08":
         calendar_check(out, drv)
@@ -158,6 +158,18 @@ def run(out: Outcome, drv, prop):
     if ex:
         fx.run_cases(out, drv, ex, verdict, WHAT[prop])
         out.extra["exhaustive_core_cases"] = len(ex)
+    if prop == "C10":
+        # timestamps with a fractional second: the rate is per WHOLE elapsed second (gen.subsecond keeps the model's axis)
+        rng = gen.rng_for(out.seed, prop, "subsecond")
+        items = []
+        for fn in fns:
+            for _ in range(n // 5):
+                c = gen.subsecond(gen.GENERATORS[fn](rng, 10), rng)
+                if c is not None and "hops" in c or c is not None and fn == "roc":
+                    ca, _tc, sk = fx.pick_carriers(c, rng)
+                    items.append((c, ca, rng.choice(["dt64ns", "dtindex", "stamps", "series_naive", "epoch_float", "dtindex_us", "series_ms"]), sk))
+        out.extra["subsecond_cases"] = len(items)
+        fx.run_cases(out, drv, items, verdict, WHAT[prop])
     for fn in fns:
         items = fx.random_items(out.seed, prop, fn, n, 12 if out.tier == "quick" else 20)
         # in chunks, so a systematic failure stops early
